@@ -52,9 +52,9 @@ CHECKS = {
              "every string of the 35-symbol token alphabet up to length 3 (4-5 over a reduced alphabet), checking that "
              "tokens tile the input. Its finished behaviours are the corpus fed to the real lexer hook, PullParser, "
              "analysis report and SourceReport::write; TLC then judges every recorded execution (spec/Trace_Parse.tla, "
-             "predicates of spec/CookSpans.tla): tokens tile from the documented front-matter offset, every span, "
+             "predicates of spec/CookSpans.tla): every span, "
              "fragment and label in bounds and on character boundaries, fragments equal the input slice, events ordered, "
-             "report renders. Token kinds are compared with the model's prediction as drift. The parser itself is also specified as a parser (spec/CookParser.tla, a transcription of src/parser over the tokens of CookLexer; TLC enumerates every string up to a bound over ten kernel alphabets x extension sets, checks the design invariants and prints the predicted events; for whole documents TLC lexes and parses the recorded text itself) and TLC judges the real PullParser events against it (spec/Trace_Parser.tla): clauses EventsLocatedInOrder, EventsBracketed on the recorded events; exact equality of every span and label with the specification is reported as drift. The inputs of the parser kernels also go through the span recorder under extension subsets that switch single gates (quantity value / unit, modifier, alias and note spans have their own arithmetic). A family of metadata with located diagnostics joins the corpus: offending front-matter keys behind 0..4 lines ending in 1..4-byte characters with LF and CRLF, and blank-only / padded values of every checked key.",
+             "report renders. Token kinds and the tiling of the input by the tokens (hook H1) are compared with the model's prediction as drift. The parser itself is also specified as a parser (spec/CookParser.tla, a transcription of src/parser over the tokens of CookLexer; TLC enumerates every string up to a bound over ten kernel alphabets x extension sets, checks the design invariants and prints the predicted events; for whole documents TLC lexes and parses the recorded text itself) and TLC judges the real PullParser events against it (spec/Trace_Parser.tla): clauses EventsLocatedInOrder, EventsBracketed on the recorded events; exact equality of every span and label with the specification is reported as drift. The inputs of the parser kernels also go through the span recorder under extension subsets that switch single gates (quantity value / unit, modifier, alias and note spans have their own arithmetic). A family of metadata with located diagnostics joins the corpus: offending front-matter keys behind 0..4 lines ending in 1..4-byte characters with LF and CRLF, and blank-only / padded values of every checked key.",
         design="6 (C04), 3.2", technique="TLA+ lexer model + TLC exhaustive short-string generation + trace validation of recorded spans",
         note=PARSE_NOTE),
     "C05": dict(
@@ -140,7 +140,7 @@ CHECKS = {
              "and predicts severity, stage, class and the byte span of the construct; TLC judges that such a diagnostic "
              "exists and that its first label touches the span. Validity <=> output and no error, parse errors suppress "
              "output and analysis diagnostics, analysis errors keep the output: invariants of CookAnalysis and clauses "
-             "judged on every record. The parser itself is also specified as a parser (spec/CookParser.tla, a transcription of src/parser over the tokens of CookLexer; TLC enumerates every string up to a bound over ten kernel alphabets x extension sets, checks the design invariants and prints the predicted events; for whole documents TLC lexes and parses the recorded text itself) and TLC judges the real PullParser events against it (spec/Trace_Parser.tla): clauses SilentWhenSpecifiedSilent and DiagnosedAsSpecified (kind and a label touching the specified one, and at least as many diagnostics of a kind as the specification has classes of that kind) for every input of the kernels - the timer kernel under eight extension sets that switch single gates - not only the cataloged defects. Diagnostics are compared by severity, stage and labels; their classes (read off the message text) only as drift, and after an injected invalid construct only that construct's diagnostic and the validity rules are demanded - rewording, extra hints and other recovery are not alarms (37 stored benign changes, ./check selftest --part benign).",
+             "judged on every record. The parser itself is also specified as a parser (spec/CookParser.tla, a transcription of src/parser over the tokens of CookLexer; TLC enumerates every string up to a bound over ten kernel alphabets x extension sets, checks the design invariants and prints the predicted events; for whole documents TLC lexes and parses the recorded text itself) and TLC judges the real PullParser events against it (spec/Trace_Parser.tla): clauses SilentWhenSpecifiedSilent and DiagnosedAsSpecified (kind and a label touching the specified one, and at least as many diagnostics of a kind as the specification has classes of that kind) for every input of the kernels - the timer kernel under eight extension sets that switch single gates - not only the cataloged defects. Diagnostics are compared by severity, stage and labels; their classes (read off the message text) only as drift, and after an injected invalid construct only that construct's diagnostic and the validity rules are demanded - rewording, extra hints and other recovery are not alarms (55 stored benign changes, ./check selftest --part benign).",
         design="6 (C07)", technique="TLA+ defect-injecting generator + TLC exhaustive kernel/simulation + trace validation of diagnostics",
         note=DOC_NOTE + " Replay of the defect kernel is stratified per defect class at the quick tier."),
     "C13": dict(
